@@ -119,7 +119,7 @@ def main():
         for cs in cases:
             names = [nm[c] for c in cs['cols']]
             heur = rng.choice(HEUR[cs['heur']])
-            jobs.append({'op': 'rank_graph', 'columns': names, 'frame': mkframe(rng, names), 'batches': len(cs['sels']),
+            jobs.append({'op': 'rank_graph', 'columns': names, 'frame': mkframe(rng, names), 'batches': len(cs['sels']), 'nodes': rng.choice([1, 2, 3]),
                          'args': {'heuristic': heur, 'label_column': nm[lab], 'combination_number_upper_bound': cs['cap'],
                                   'target_ranking_only': 'True' if cs['mode'] == 'target' else 'False'}})
         got = PC.pipe_eval(jobs, modules=['pipe_ops'])
@@ -178,7 +178,7 @@ def main():
         heur = rng.choice(HEUR[kind])
         if heur in ('MI',) and len(names) > 13:
             heur = 'MI-numba-randomized'
-        jobs.append({'op': 'rank_graph', 'columns': names, 'frame': mkframe(rng, names, 10), 'batches': 1,
+        jobs.append({'op': 'rank_graph', 'columns': names, 'frame': mkframe(rng, names, 10), 'batches': 1, 'nodes': rng.choice([1, 2, 3, 4]),
                      'args': {'heuristic': heur, 'label_column': label, 'combination_number_upper_bound': cap,
                               'target_ranking_only': 'True' if mode == 'target' else 'False'}})
         meta.append((kind, mode, label, cap))
